@@ -10,10 +10,10 @@ VARIABLE v
 
 Sites == {"create_command:export", "create_command:cd", "get_command:export",
           "_build_shell_command:export", "_build_shell_command:cd", "argv"}
+\* as coded at /repo 6780471: create_command quotes the working directory and exported values with shlex.quote
+\* (it rendered  cd {workdir}  = UNQ and  export K="{value}"  = DQ before that commit)
 AsIs == [s \in Sites |->
-           CASE s = "create_command:export" -> "DQ"
-             [] s = "create_command:cd" -> "UNQ"
-             [] s = "get_command:export" -> "DQ"
+           CASE s = "get_command:export" -> "DQ"
              [] OTHER -> "SQ2"]
 Fixed == [s \in Sites |-> "SQ2"]
 
